@@ -57,6 +57,8 @@ def jobs(tier):
     for i, row in matrix.rows(tier):
         for which in (("2a", "2c", "3a", "3c") if not q else (("2a", "3c") if i % 2 else ("2c", "3a"))):
             out.append(("matrix.%s.%s" % (which, matrix.label(i, row)), "job_matrix", dict(which=which, row=row)))
+    for which in ("2a", "2c", "3a", "3c"):      # a directory reachable under two names (a symbolic link next to its target, no cycle)
+        out.append(("tree.%s.directory-link" % which, "job_dirlink", dict(which=which, dirlink=True)))
     for shp in cr.scheme_shapes(["flat2", "nested3"], tier):
         for which in ("2a", "2c"):
             out.append(("tree.%s.%s.P16384" % (which, shp), "job_tree", dict(which=which, shape=shp, P=16384, K=1 if shp.startswith("nested3") else 2, order="reversed")))
@@ -170,6 +172,35 @@ def job_matrix(E, which, row, _mutants=None):
                "C02.matrix", _mutants=_mutants)
 
 
+DIRLINK = ["name/alias/x", "name/shared/x", "name/z"]
+
+
+def job_dirlink(E, which, dirlink=True, _mutants=None):
+    """name/alias is a symbolic link to the directory name/shared: both names are payload (the files below them are
+    listed and hashed under both), exactly as for two independent directories with equal contents."""
+    P = 16384
+    fs = AFS(order="reversed")
+    s0, s1 = E.int("s0", 1, 2 * P), E.int("s1", 0, P)
+    fs.add("/data/name/shared/x", ("f", 0), s0)
+    fs.add("/data/name/z", ("f", 1), s1)
+    fs.add_link("/data/name/alias", "shared")
+    E.note("shape", "dirlink3")
+    sizes = {"name/alias/x": s0, "name/shared/x": s0, "name/z": s1}
+    SHAPES["dirlink3"] = DIRLINK
+    save = cr.fid_of
+    cr.fid_of = lambda shape, rel, names=None: ("f", 1) if rel.endswith("/z") else ("f", 0)
+    try:
+        w = World(fs, mutants=_mutants)
+        try:
+            t = cr.create(w, which, path="/data/name", piece_length=P, progress=0)
+        except Exception as ex:  # noqa: BLE001
+            E.fail("C02.no-exception", "%s: %s" % (type(ex).__name__, ex))
+            return
+        orc.oracle_v2(E, t.meta, sizes, P, "dirlink3", "C02.dirlink")
+    finally:
+        cr.fid_of = save
+
+
 def job_tree_second(E, first, second, P, _mutants=None):
     """Two creations in one process over two different trees: the second metafile must describe the second tree only."""
     fs = AFS(order="reversed")
@@ -241,6 +272,18 @@ def replay(params, model, notes, workdir, seed):
         if layer != (rlayer if rlayer is not None else rroot):
             bad.append("C02.hasher-seq.layer")
         return bad
+    if params.get("dirlink"):
+        s0, s1 = int(model["s0"]), int(model["s1"])
+        x, z = refconc.content(("f", 0), s0, seed), refconc.content(("f", 1), s1, seed)
+        refconc.write_file(os.path.join(workdir, "data", "name", "shared", "x"), x)
+        refconc.write_file(os.path.join(workdir, "data", "name", "z"), z)
+        os.symlink("shared", os.path.join(workdir, "data", "name", "alias"))
+        try:
+            t = cr.real_create(params["which"], path=os.path.join(workdir, "data", "name"), piece_length=16384)
+        except Exception as ex:  # noqa: BLE001
+            return ["C02.no-exception: %s: %s" % (type(ex).__name__, ex)]
+        SHAPES["dirlink3"] = DIRLINK
+        return ["C02.dirlink." + b for b in cr.conc_v2(t.meta, {"name/alias/x": x, "name/shared/x": x, "name/z": z}, 16384, False)]
     P = params["P"]
     if "first" in params:
         shape = "flat2"
